@@ -403,6 +403,9 @@ fn run_e2_property(id: &str, thorough: bool, ev: &mut Evidence) {
         let r = paths::run_scripts(id, checks, paths::DRAGBACK_NAME, &paths::dragback_scripts(thorough));
         eprintln!("  {} : states={} transitions={} {:.1}s {} {}", r.family, r.stats.states, r.stats.transitions, r.wall_s, if r.complete { "complete" } else { "INCOMPLETE" }, r.note);
         ev.families.push(r);
+        let r = paths::run_scripts(id, checks, paths::TWO_PIECE_NAME, &paths::two_piece_withheld_scripts());
+        eprintln!("  {} : states={} transitions={} {:.1}s {} {}", r.family, r.stats.states, r.stats.transitions, r.wall_s, if r.complete { "complete" } else { "INCOMPLETE" }, r.note);
+        ev.families.push(r);
     }
     if matches!(id, "C05" | "C06" | "C07") {
         let (scripts, arrangements, found) = paths::collision_scripts(thorough);
